@@ -3,11 +3,14 @@ CONSTANTS
   W = 1
   RMW = TRUE
   Export = TRUE
+  InRep = "f8"
 SPECIFICATION Spec
 INVARIANT AtMostOnce
 INVARIANT ExactlyOnce
 INVARIANT Confluence
 INVARIANT InFlight
+INVARIANT SharedBeforeWork
+INVARIANT SameRepresentation
 INVARIANT ExportOK
 PROPERTY OwnRowOnly
 PROPERTY Terminates
